@@ -727,6 +727,13 @@ func (check typecheck) conversion(n *node, typ *itype) error {
 				return err
 			}
 		}
+
+	case isComplex(typ.TypeOf()) && typedNumConst(n) != nil:
+		// A typed integer or float constant is convertible to a complex type.
+		if err := check.representableValue(n, typedNumConst(n), typ.TypeOf()); err != nil {
+			return err
+		}
+		ok = true
 	}
 	if !ok {
 		return n.cfgErrorf("cannot convert expression of type %s to type %s", n.typ.id(), typ.id())
